@@ -2,8 +2,15 @@
 
 Written from the property statements (C07/C08) and the documented vi behaviour; where those are silent
 the behaviour is calibrated to the unchanged tree (marked CAL).  Lines are Python strings without their
-terminator; left-to-right text only (no right-to-left letters: visual neighbours are then logical ones).
+terminator.  Right-to-left letters are laid out in the documented visual order (models/bidi.py) when the order /
+textdirection / linelimit options ask for it; lines that would need the configured direction-mark patterns raise Unmodelled.
 """
+from . import bidi
+
+
+class Unmodelled(Exception):
+    pass
+
 
 
 def kind(ch):
@@ -35,6 +42,9 @@ class Vi:
         self.charlast = None
         self.charcmd = None
         self.marks = {}
+        self.td = 0               # options textdirection, order, linelimit (defaults of ex.c)
+        self.order = 1
+        self.lim = 256
         self.col = self.off2col(0, 0)
 
     # ------------------------------------------------------------ line helpers (a line is its text + '\n')
@@ -71,15 +81,56 @@ class Vi:
             o += 1
         return o
 
+    def context(self, r):
+        """base direction of line r (+1 left-to-right)"""
+        f = self.full(r)
+        return bidi.context(f[:-1] if f and len(f) > 1 else (f or ""), self.td, self.t)
+
+    def visual(self, r):
+        """visual index of every character of line r (terminator included)"""
+        f = self.full(r)
+        n = len(f)
+        ident = list(range(n))
+        on = n <= self.lim and (self.order == 2 or (self.order == 1 and any(ord(ch) >= 128 for ch in f)))
+        if not on:
+            return ident
+        ctx = self.context(r)
+        body = f[:-1]
+        if ctx > 0 and not any(ch in self.t.cr2l for ch in body):
+            return ident          # CAL: nothing to reverse in a left-to-right line without right-to-left letters
+        if any(ch in "\\$`'*[]{}" for ch in body):
+            raise Unmodelled("direction marks")
+        return bidi.reorder(body, ctx, self.t) + [n - 1]
+
     def positions(self, r):
         f = self.full(r)
-        pos = []
+        vis = self.visual(r)
+        n = len(f)
+        inv = [0] * n
+        for i, v in enumerate(vis):
+            inv[v] = i
+        pos = [0] * (n + 1)
         col = 0
-        for ch in f:
-            pos.append(col)
-            col += self.t.cwid(ord(ch), col)
-        pos.append(col)
+        for v in range(n):
+            pos[inv[v]] = col
+            col += self.t.cwid(ord(f[inv[v]]), col)
+        pos[n] = col
         return pos
+
+    def nextcol(self, r, o, d):
+        """ren_next + ren_off: the character displayed immediately to the right (d > 0) or left of character o; None at the line ends"""
+        f = self.full(r)
+        if f is None:
+            return None
+        pos = self.positions(r)
+        n = len(f)
+        cur = pos[o] if o < n else 0
+        cand = [pos[i] for i in range(n) if (pos[i] > cur if d > 0 else pos[i] < cur)]
+        if not cand:
+            return None
+        x = min(cand) if d > 0 else max(cand)
+        tgt = max(i for i in range(n) if pos[i] == x)
+        return None if f[tgt] == "\n" else tgt
 
     def off2col(self, r, o):
         f = self.full(r)
@@ -263,19 +314,14 @@ class Vi:
                 return None
             p = self.findchar(self.charlast, self.charcmd, -cnt, r, o)
             return None if p is None else (key, r, p)
-        if key == "h":
-            f = self.full(r)
+        if key in "hl":
+            # h / l follow the display: towards the line start / end in the line's base direction
+            d = (-1 if key == "h" else 1) * (self.context(r) if self.full(r) is not None else 1)
             for _ in range(cnt):
-                if f is None or o - 1 < 0:
+                nx = self.nextcol(r, o, d)
+                if nx is None:
                     break
-                o -= 1
-            return key, r, o
-        if key == "l":
-            f = self.full(r)
-            for _ in range(cnt):
-                if f is None or o + 1 >= len(f) or f[o + 1] == "\n":
-                    break
-                o += 1
+                o = nx
             return key, r, o
         if key in "wWbBeE":
             for _ in range(cnt):
